@@ -75,9 +75,12 @@ class RUSHScheduler(TransferLearningMixin, HyperbandScheduler):
         ]
         if custom_rush_points is not None:
             threshold_candidates += custom_rush_points
-            threshold_candidates = [
-                dict(s) for s in set(frozenset(p.items()) for p in threshold_candidates)
-            ]
+            # Remove duplicates, keeping the order of first occurrence (the
+            # iteration order of a set would depend on hash randomization)
+            unique_candidates = dict()
+            for p in threshold_candidates:
+                unique_candidates.setdefault(frozenset(p.items()), p)
+            threshold_candidates = list(unique_candidates.values())
         num_threshold_candidates = len(threshold_candidates)
         if points_to_evaluate is not None:
             points_to_evaluate = threshold_candidates + [
